@@ -454,7 +454,13 @@ func TestC02Grid(t *testing.T) {
 	h.AddExtra("C02", "huge_gap_cases_enumerated", n)
 	// integers of 80 000 and 100 003 digits, both signs, one unit below / at / above a power of ten, rounded to a few
 	// digits by SetInt and SetRat: the accuracy is the sign of (stored - exact) for negative arguments too
-	for _, d := range []int{80000, 100003} {
+	// (330 000 digits: just above 2^20 bits, where an implementation might start to treat integers differently; fewer
+	// combinations there, the conversion is quadratic)
+	sizes := []int{80000, 100003, 330000}
+	if h.Thorough() {
+		sizes = append(sizes, 700001)
+	}
+	for _, d := range sizes {
 		p := new(big.Int).Exp(big.NewInt(10), big.NewInt(int64(d)), nil)
 		for _, delta := range []int64{-1, 0, 1} {
 			for _, neg := range []bool{false, true} {
@@ -463,6 +469,9 @@ func TestC02Grid(t *testing.T) {
 					v.Neg(v)
 				}
 				for _, m := range []uint8{uint8(model.ToNearestEven), uint8(model.ToZero), uint8(model.ToNegativeInf)} {
+					if d > 300000 && (delta == 0 || m == uint8(model.ToNegativeInf) && !neg) {
+						continue
+					}
 					c := C02Case{Op: "setint", I: v.String(), P: uint(3 + d%37), M: m}
 					if delta == 0 && m != 0 {
 						c = C02Case{Op: "setrat", I: v.String(), Den: "1", P: uint(3 + d%37), M: m}
